@@ -797,6 +797,41 @@ theorem C16_order_struct (zero : α) (f : FileM α) (sfs : List SField) (reuse :
   obtain ⟨rows, h1, h2⟩ := readS_go_rows zero sfs reuse (fileKeys f.fields) G f.rows (zeroRow zero sfs) h
   exact ⟨rows, by simpa [readS] using h1, RowsOf_length _ _ _ _ _ _ _ h2, h2⟩
 
+/-- **C16_order_struct_written** (either encoder path ↦ `DecodeRow`): `n` records written with `Encode`
+(`viaEncode = true`) or with `EncodeFields` are `n` rows; `n` `DecodeRow` calls return them in call order,
+one row each, no panic/error, row `i` decoded from the cells written for record `i`. -/
+theorem C16_order_struct_written (eq : Pt α → Pt α → Bool) (zero : α) (e : EncS) (viaEncode : Bool)
+    (recs : List (Geom α × List Val)) (S : Geom α → Shape α) (G : Shape α → Geom α) (sfs : List SField) (reuse : Bool)
+    (hw : ∀ r ∈ recs, (if viaEncode then fieldShape eq e.geomKind r.1 else geom2Shp eq r.1) = .ok (S r.1))
+    (hr : ∀ r ∈ recs, shp2Geom (S r.1) = .ok (G (S r.1)) ∧
+      CallOK zero (fileKeys e.fields) G (.s sfs reuse)
+        (S r.1, if viaEncode then (writeStrict e.fields r.2).1 else writeLenient e.fields r.2)) :
+    ∃ rows, readS zero ⟨e.shpType, e.fields,
+        if viaEncode then (writeAllS eq e recs).1 else (writeAllF eq e.fields recs).1⟩ sfs reuse = ⟨rows, false, false⟩ ∧
+      rows.length = recs.length := by
+  cases viaEncode with
+  | true =>
+    simp only [if_true] at hw hr ⊢
+    have hrows := C16_order_encode eq e recs S hw
+    obtain ⟨rows, h1, h2, _⟩ := C16_order_struct zero ⟨e.shpType, e.fields, (writeAllS eq e recs).1⟩ sfs reuse G (by
+      intro r hrm
+      simp only [hrows] at hrm
+      obtain ⟨r0, hr0, rfl⟩ := List.mem_map.mp hrm
+      exact hr r0 hr0)
+    exact ⟨rows, h1, by simpa [hrows] using h2⟩
+  | false =>
+    simp only [Bool.false_eq_true, if_false] at hw hr ⊢
+    have hrows := writeAllF_rows eq e.fields S recs ([], []) hw
+    simp only [List.nil_append] at hrows
+    have hfile : (writeAllF eq e.fields recs).1 = recs.map (fun r => (S r.1, writeLenient e.fields r.2)) := by
+      simpa [writeAllF] using hrows
+    obtain ⟨rows, h1, h2, _⟩ := C16_order_struct zero ⟨e.shpType, e.fields, (writeAllF eq e.fields recs).1⟩ sfs reuse G (by
+      intro r hrm
+      simp only [hfile] at hrm
+      obtain ⟨r0, hr0, rfl⟩ := List.mem_map.mp hrm
+      exact hr r0 hr0)
+    exact ⟨rows, h1, by simpa [hfile] using h2⟩
+
 /-- the values `DecodeRow` leaves in the record are, field by field, what `decodeField` computes from the
 row's own cells -/
 theorem decodeFields_getElem (zero : α) (keys : List Bytes) (g : Geom α) (cells : List Bytes) :
